@@ -220,3 +220,51 @@ BP('C08', 'rf-c08-3', 'rf-c08-3.diff',
    'independent refactoring: mithril-stm/src/proof_system/concatenation/signer.rs (signer side of the lottery): `ConcatenationProofSigner::check_lottery` is rewritten from a `for` loop that pushes winning indices into a mutable Vec into the iterator chain `(0..m).filter(|&index| { let ev = sigma.evaluate_dense_mapping(msg, inde')
 BP('C08', 'rf-c08-4', 'rf-c08-4.diff',
    'independent refactoring: mithril-stm/src/proof_system/concatenation/single_signature.rs (verifier side of the lottery): the body of the loop in `SingleSignatureForConcatenation::check_indices` (index bound check, evaluation of the dense mapping, `is_lottery_won` test) is extracted into a new private method `check_index(&sel')
+BP('C09', 'rf-c09-1', 'rf-c09-1.diff',
+   'independent refactoring: mithril-stm MerkleTreeBatchCommitment::verify_leaves_membership_from_batch_path: the two precondition checks (one index per leaf; indices ordered) are merged into a single guard using an intermediate boolean and slice::is_sorted() instead of clone + sort_unstable + compare; the heap positions are compute')
+BP('C09', 'rf-c09-2', 'rf-c09-2.diff',
+   'independent refactoring: mithril-stm MerkleTree::compute_merkle_tree_batch_path (generation of the batch membership proof for the signer-registration tree) is split in three: the input validation (non-empty, in bounds, ordered) moves to a new private helper assert_batch_indices_are_valid(&self, &[usize]); the per-level step of t')
+BP('C09', 'rf-c09-3', 'rf-c09-3.diff',
+   'independent refactoring: mithril-merkle-tree (generic Merkle tree), internal/mithril-merkle-tree/src/merkle_tree.rs: (a) MKProof::verify: the long method chain is unrolled with two intermediate variables (the rebuilt ckb MerkleProof and the boolean returned by its verify) before the unchanged `.then_some(()).with_context(|| "Inv')
+BP('C09', 'rf-c09-4', 'rf-c09-4.diff',
+   'independent refactoring: mithril-merkle-tree (nested block-range Merkle map), internal/mithril-merkle-tree/src/merkle_map.rs: MKMapProof::verify is split in three steps: the recursive verification of the sub proofs moves to a new private helper verify_sub_proofs(); the check that binds every sub proof to the master proof (key me')
+BP('C13', 'rf-c13-1', 'rf-c13-1.diff',
+   'independent refactoring: BlocksTransactionsImporter (blocks_and_transactions_importer.rs): `run` now computes the highest stored block number once, names the `store already up to date` condition in a boolean (`is_store_up_to_date`, written as a match with the comparison flipped to `up_to_beacon <= stored_block_number`) and retur')
+BP('C13', 'rf-c13-2', 'rf-c13-2.diff',
+   'independent refactoring: ChainReaderBlockStreamer (chain_reader_block_streamer.rs): the decision to skip the roll backward that opens the chain sync is moved from the callee `get_next_chain_block_action` to its only caller `poll_next`, as a new private predicate `is_chain_sync_opening_rollback(&rollback_point)` evaluated at the ')
+BP('C13', 'rf-c13-3', 'rf-c13-3.diff',
+   'independent refactoring: BlockRangeImporter (block_ranges_importer.rs): the duplicated computation, in `run` and `run_legacy`, of which block ranges still need a Merkle root (resume from the end of the highest stored block range, or from block 0 when none is stored, and skip when a stored range exists but no new complete range f')
+BP('C13', 'rf-c13-4', 'rf-c13-4.diff',
+   'independent refactoring: CardanoTransactionRepository (mithril-persistence, cardano_transaction_repository.rs): in `remove_rolled_back_transactions_and_block_range_by_block_number` the three delete statements (blocks+transactions above the block number, block range roots and legacy block range roots containing or above it) are e')
+BP('C15', 'rf-c15-1', 'rf-c15-1.diff',
+   'independent refactoring: MithrilCertifierService::create_certificate (mithril-aggregator/src/services/certifier/certifier_service.rs): the two persistence steps that seal a round (certificate insert, then open-message update with is_certified = true) are extracted, in the same order, into a new private async helper `store_certif')
+BP('C15', 'rf-c15-2', 'rf-c15-2.diff',
+   'independent refactoring: MithrilSignedEntityService::create_artifact_task (mithril-aggregator/src/services/signed_entity.rs) is split in three: the retry loop around compute_artifact moves to a new private helper `compute_artifact_with_retry` and is rewritten from a count-down `remaining_retries` + `break Ok/Err` + trailing `?` ')
+BP('C15', 'rf-c15-3', 'rf-c15-3.diff',
+   'independent refactoring: BufferedCertifierService (mithril-aggregator/src/services/certifier/buffered_certifier.rs), buffered-signature hand-over: the body of the per-signature loop in `try_register_buffered_signatures_to_current_open_message` is extracted into a new private async helper `try_hand_over_buffered_signature` return')
+BP('C15', 'rf-c15-4', 'rf-c15-4.diff',
+   'independent refactoring: Runtime code that orders `seal certificate -> produce artifact` and that resumes a non-certified round after a restart. (a) AggregatorRuntime::transition_from_signing_to_ready_multisignature (mithril-aggregator/src/runtime/state_machine.rs): `.await?.ok_or_else(|| RuntimeError::KeepState{..})?` becomes `')
+BP('C17', 'rf-c17-1', 'rf-c17-1.diff',
+   'independent refactoring: mithril-common/src/entities/signed_entity_config.rs: the private free function `compute_block_number_to_be_signed(block_number, security_parameter, step)` is replaced by a narrower private helper `round_down_to_multiple_of_step(block_number, step)`. The subtraction of the security parameter (the security')
+BP('C17', 'rf-c17-2', 'rf-c17-2.diff',
+   'independent refactoring: mithril-common/src/entities/signed_entity_config.rs: in `CardanoTransactionsSigningConfig::compute_block_number_to_be_signed`, the adjustment of the configured step to the block range grid (round the step down to the start of its block range, with a minimum of BlockRange::LENGTH) is extracted into a new ')
+BP('C17', 'rf-c17-3', 'rf-c17-3.diff',
+   'independent refactoring: mithril-common/src/entities/signed_entity_config.rs: `SignedEntityConfig::time_point_to_signed_entity` (the single function through which signer and aggregator derive the beacon to sign from a time point and the epoch`s configuration) is split. The two arms that depend on a signing configuration are extr')
+BP('C17', 'rf-c17-4', 'rf-c17-4.diff',
+   'independent refactoring: mithril-common/src/entities/signed_entity_config.rs: `SignedEntityConfig::list_allowed_signed_entity_types` (the entry point used by both the signer`s certifier service and the aggregator`s runner to obtain the beacons to sign for a time point) is rewritten from an iterator chain `discriminants.into_iter')
+BP('C19', 'rf-c19-1', 'rf-c19-1.diff',
+   'independent refactoring: mithril-client download_task.rs: the ancillary branch of DownloadTask::build_download_future (create temp sub-directory -> download/unpack into it -> verify signed manifest -> move vouched files -> always remove temp directory) is extracted into a new private method `download_unpack_ancillary_through_tem')
+BP('C19', 'rf-c19-2', 'rf-c19-2.diff',
+   'independent refactoring: mithril-client utils/ancillary_verifier.rs: AncillaryVerifier::verify is split into two new private helpers - `read_manifest` (open + JSON-parse ancillary_manifest.json, `?` on the open error rewritten as an explicit match/early return, the path is moved instead of cloned) and `verify_manifest_signature`')
+BP('C19', 'rf-c19-3', 'rf-c19-3.diff',
+   'independent refactoring: mithril-client utils/unexpected_downloaded_file_verifier.rs (the guard that removes from the immutable directory every entry that was neither there before the download nor an immutable trio file of the allowed range): (a) the body of the spawn_blocking closure of `compute_expected_state_after_download` i')
+BP('C19', 'rf-c19-4', 'rf-c19-4.diff',
+   'independent refactoring: mithril-client cardano_database_client/download_unpack/internal_downloader.rs: InternalArtifactDownloader::download_unpack (the orchestration entry point) is split. (a) The construction of the task queue (immutable tasks for the requested range, then - only with include_ancillary - the warning + the anci')
+BP('C20', 'rf-c20-1', 'rf-c20-1.diff',
+   'independent refactoring: mithril-signer state machine (runtime/state_machine.rs): flatten `cycle_ready_to_sign` into early returns (match binding the unchanged time point + let-else on the beacon) and extract the runner call + KeepState error mapping into a new private helper `fetch_beacon_to_sign`; in `has_epoch_changed` rename')
+BP('C20', 'rf-c20-2', 'rf-c20-2.diff',
+   'independent refactoring: Sign-once-per-beacon mechanism. services/certifier.rs: `SignerCertifierService::compute_publish_single_signature` now delegates the `compute the single signature, publish it if one was issued` part to a new private helper `compute_and_publish_signature_if_any` (an `if let Some / else` rewritten as a `mat')
+BP('C20', 'rf-c20-3', 'rf-c20-3.diff',
+   'independent refactoring: Epoch key material / eligibility mechanism in services/epoch_service.rs (MithrilEpochService). `can_signer_sign_current_epoch`: nested if-let/else flattened with a let-else early return for the `no protocol initializer` case and a named `is_signer_included` boolean that is returned directly. `is_signer_i')
+BP('C20', 'rf-c20-4', 'rf-c20-4.diff',
+   'independent refactoring: Key registration mechanism in runtime/runner.rs (SignerRunner). `register_signer_to_aggregator`: the inline `match` that reads the operational certificate from the configured path is extracted into a new private inherent method `SignerRunner::read_operational_certificate` (written with let-else); the gua')
